@@ -380,6 +380,7 @@ func safeEncode(e *jpeg2000.Encoder, img []byte) (out []byte, err error) {
 
 func c10Encoder(c *Ctx) {
 	rng := c.Rng.Fork()
+	c10EncoderParamsChanged(c, rng.Fork())
 	cfgs := encoderConfigs()
 	rounds := c.N(1, 6)
 	for r := 0; r < rounds; r++ {
@@ -417,6 +418,49 @@ func c10Encoder(c *Ctx) {
 					c.R.Fail("oracle", "c10_encoder_history", "c10:j2k-encoder:params-modified", "Encode changed the EncodeParams object", info)
 				}
 			}
+		}
+	}
+}
+
+// One Encoder object, images of different size / components / depth / mode in sequence: the only
+// way to do that with the API is to change the EncodeParams the encoder was created with
+// (NewEncoder keeps the caller's pointer). Each call is compared with a new encoder created
+// with equal parameters.
+func c10EncoderParamsChanged(c *Ctx, rng *Rand) {
+	type change struct {
+		name  string
+		apply func(p *jpeg2000.EncodeParams)
+	}
+	changes := []change{
+		{"size", func(p *jpeg2000.EncodeParams) { p.Width, p.Height = 24, 9 }},
+		{"components", func(p *jpeg2000.EncodeParams) { p.Components = 3 }},
+		{"bitdepth", func(p *jpeg2000.EncodeParams) { p.BitDepth = 12 }},
+		{"levels", func(p *jpeg2000.EncodeParams) { p.NumLevels = 1 }},
+		{"lossy", func(p *jpeg2000.EncodeParams) { p.Lossless, p.Quality = false, 60 }},
+	}
+	for _, ch := range changes {
+		p := jpeg2000.DefaultEncodeParams(16, 16, 1, 8, false)
+		p.NumLevels = 2
+		e := jpeg2000.NewEncoder(p)
+		first := GenFrame(rng, geoOfParams(p), 1)
+		if _, err := safeEncode(e, first); err != nil {
+			continue
+		}
+		ch.apply(p)
+		g := geoOfParams(p)
+		img := GenFrame(rng, g, 1)
+		got, err := safeEncode(e, img)
+		q := jpeg2000.DefaultEncodeParams(16, 16, 1, 8, false)
+		q.NumLevels = 2
+		ch.apply(q)
+		want, err2 := safeEncode(jpeg2000.NewEncoder(q), img)
+		c.R.Case("c10:j2k-encoder:params-changed:"+ch.name, true, "c10.encoder.params-changed")
+		c.R.Oracle("c10_encoder_history")
+		if (err == nil) != (err2 == nil) || !bytes.Equal(got, want) {
+			c.R.Fail("oracle", "c10_encoder_history", "c10:j2k-encoder:history:params-changed:"+ch.name,
+				fmt.Sprintf("Encode after an earlier Encode with other parameters (%s changed through the retained *EncodeParams) differs from a new Encoder with the same parameters (errs %v / %v, %d vs %d bytes)",
+					ch.name, err, err2, len(got), len(want)),
+				map[string]interface{}{"change": ch.name, "first_image": Hex(first), "image": Hex(img)})
 		}
 	}
 }
@@ -461,11 +505,17 @@ func decoderPool(c *Ctx, rng *Rand) []stream {
 	// ROIConfig (RGN + JP2ROI COM segment)
 	{
 		p := jpeg2000.DefaultEncodeParams(16, 16, 1, 8, false)
-		p.ROIConfig = &jpeg2000.ROIConfig{DefaultShift: 4, ROIs: []jpeg2000.ROIRegion{{Rect: &jpeg2000.ROIParams{X0: 4, Y0: 4, Width: 6, Height: 6, Shift: 4}}}}
-		if data, err := safeEncode(jpeg2000.NewEncoder(p), GenFrame(rng, geoOfParams(p), 1)); err == nil {
-			pool = append(pool, stream{"gray-roiconfig", data, false})
-		} else {
-			c.R.Note("c10 decoder pool: ROIConfig does not encode: %v", err)
+		for _, regionShift := range []int{4, 0} {
+			p.ROIConfig = &jpeg2000.ROIConfig{DefaultShift: 4, ROIs: []jpeg2000.ROIRegion{{Shift: regionShift, Rect: &jpeg2000.ROIParams{X0: 4, Y0: 4, Width: 6, Height: 6, Shift: 4}}}}
+			name := "gray-roiconfig"
+			if regionShift == 0 {
+				name = "gray-roiconfig-rectshift" // shift given on the rectangle only: the COM segment then carries shift 0
+			}
+			if data, err := safeEncode(jpeg2000.NewEncoder(p), GenFrame(rng, geoOfParams(p), 1)); err == nil {
+				pool = append(pool, stream{name, data, false})
+			} else {
+				c.R.Note("c10 decoder pool: ROIConfig does not encode: %v", err)
+			}
 		}
 	}
 	return pool
@@ -502,7 +552,8 @@ func sameResult(a, b decResult) bool {
 }
 
 func markerSummary(data []byte) string {
-	cs, err := codestream.NewParser(data).Parse()
+	// private copy: the parser merges tile-parts in place (finding c10:j2k-decoder:input-modified)
+	cs, err := codestream.NewParser(append([]byte(nil), data...)).Parse()
 	if err != nil || cs == nil {
 		return "unparsed"
 	}
@@ -575,7 +626,7 @@ func shortClass(s string) string {
 	switch s {
 	case "rgb-custom-mct", "rgb-mct-bindings":
 		return "mct"
-	case "gray-roi", "gray-roiconfig":
+	case "gray-roi", "gray-roiconfig", "gray-roiconfig-rectshift":
 		return "roi"
 	case "none":
 		return "none"
